@@ -46,6 +46,15 @@ def derived_bodies(prog):
     return out
 
 
+# methods that panic when handed a position that is out of range or (strings) not on a char boundary
+BOUNDARY = re.compile(r"^(std::string::String::(truncate|split_off|insert|insert_str|remove|drain|replace_range)|"
+                      r"core::str::<impl str>::(split_at|split_at_mut)|"
+                      r"std::vec::Vec::<T, A>::(remove|insert|swap_remove|split_off|drain|splice)|"
+                      r"std::collections::VecDeque::<T, A>::(remove|insert|swap_remove_back|swap_remove_front|split_off|drain)|"
+                      r"core::slice::<impl \[T\]>::(swap|copy_within|rotate_left|rotate_right|chunks|chunks_exact|windows|select_nth_unstable\w*)|"
+                      r"std::time::Duration::(from_secs_f32|from_secs_f64|mul_f32|mul_f64|div_f32|div_f64))$")
+
+
 def enumerate_sites(w):
     prog = w.prog
     der = derived_bodies(prog)
@@ -75,6 +84,8 @@ def enumerate_sites(w):
                     kind = "slice-split"
                 elif INDEXING.search(p):
                     kind = "index"
+                elif BOUNDARY.search(p):
+                    kind = "position"
                 elif REFCELL.search(p):
                     kind = "refcell"
                 elif UNSAFE_LEN.search(p):
